@@ -240,6 +240,12 @@ def tlc(module, cfg, workers=8, simulate=None, depth=None, extra=(), env=None, t
         shutil.rmtree(meta, ignore_errors=True)
     res.rc = p.returncode
     res.wall = time.time() - t0
+    if simulate and res.rc == 0 and not res.errors and res.violated is None:
+        res.ok = True        # simulation mode does not print "No error has been found"
+        for ln in res.text:
+            m = re.search(r"The number of states generated: (\d+)", ln)
+            if m:
+                res.generated = int(m.group(1))
     return res
 
 
@@ -256,53 +262,67 @@ def decode_tlc_json(line):
 
 
 class Piper:
-    """Feeds TLC-emitted JSON lines to a harness process; collects the harness's stdout lines."""
+    """Feeds TLC-emitted JSON lines round-robin to nproc harness processes; collects their stdout lines."""
 
-    def __init__(self, cmd, env=None, timeout=3600):
+    def __init__(self, cmd, env=None, timeout=3600, nproc=1):
         e = dict(os.environ)
         if env:
             e.update(env)
-        self.p = subprocess.Popen(cmd, stdin=subprocess.PIPE, stdout=subprocess.PIPE, stderr=subprocess.PIPE,
-                                  text=True, errors="replace", env=e, bufsize=1 << 20)
+        self.ps = [subprocess.Popen(cmd, stdin=subprocess.PIPE, stdout=subprocess.PIPE, stderr=subprocess.PIPE,
+                                    text=True, errors="replace", env=e, bufsize=1 << 20) for _ in range(max(1, nproc))]
         self.out = []
         self.err = []
         self.n = 0
         self.samples = []
-        self._t = threading.Thread(target=self._rd, daemon=True)
-        self._t.start()
-        self._t2 = threading.Thread(target=self._rde, daemon=True)
-        self._t2.start()
-        self._timer = threading.Timer(timeout, self.p.kill)
+        self._lock = threading.Lock()
+        self._ts = []
+        for p in self.ps:
+            for fn, stream in ((self._rd, p.stdout), (self._rde, p.stderr)):
+                t = threading.Thread(target=fn, args=(stream,), daemon=True)
+                t.start()
+                self._ts.append(t)
+        self._timer = threading.Timer(timeout, self._killall)
         self._timer.start()
 
-    def _rd(self):
-        for line in self.p.stdout:
-            self.out.append(line.rstrip("\n"))
+    def _killall(self):
+        for p in self.ps:
+            p.kill()
 
-    def _rde(self):
-        for line in self.p.stderr:
-            if len(self.err) < 2000:
-                self.err.append(line.rstrip("\n"))
+    def _rd(self, stream):
+        for line in stream:
+            with self._lock:
+                self.out.append(line.rstrip("\n"))
+
+    def _rde(self, stream):
+        for line in stream:
+            with self._lock:
+                if len(self.err) < 2000:
+                    self.err.append(line.rstrip("\n"))
 
     def feed(self, line):
+        p = self.ps[self.n % len(self.ps)]
         self.n += 1
         if len(self.samples) < 3 or (self.n % 9973 == 0 and len(self.samples) < 8):
             self.samples.append(line)
         try:
-            self.p.stdin.write(line)
+            p.stdin.write(line)
         except (BrokenPipeError, ValueError):
             pass
 
     def close(self):
-        try:
-            self.p.stdin.close()
-        except Exception:
-            pass
-        self.p.wait()
+        rc = 0
+        for p in self.ps:
+            try:
+                p.stdin.close()
+            except Exception:
+                pass
+        for p in self.ps:
+            p.wait()
+            rc = rc or p.returncode
         self._timer.cancel()
-        self._t.join(10)
-        self._t2.join(10)
-        return self.p.returncode
+        for t in self._ts:
+            t.join(10)
+        return rc
 
 
 def harness_results(lines):
@@ -324,6 +344,10 @@ def harness_results(lines):
                     continue
                 if isinstance(v, (int, float)) and isinstance(summ.get(k, 0), (int, float)):
                     summ[k] = summ.get(k, 0) + v
+                elif isinstance(v, dict) and isinstance(summ.get(k, {}), dict):
+                    d = summ.setdefault(k, {})
+                    for kk, vv in v.items():
+                        d[kk] = d.get(kk, 0) + vv if isinstance(vv, (int, float)) else vv
                 else:
                     summ[k] = v
         elif o.get("t") == "sample":
